@@ -49,6 +49,7 @@ type Exec struct {
 	modLocs    map[string][]*Term
 	noTypeInv  bool
 	refine     *refineCtx
+	feas       *feasSolver
 	curPos     token.Pos
 }
 
